@@ -1,16 +1,40 @@
 package extract
 
 // C04 generator Gen/JoinState: the state the updater factories keep between
-// runs and every operation the packages perform on it.
+// runs and every operation the packages perform on it (shape-robust:
+// design/EXTRACT.md, round 2).
 //
-//   - debian, ubuntu, alpine, suse: the package-level sync.Map tables, with
-//     every (function, method) that touches them ("escape" = the variable is
-//     used other than as the receiver of a method call);
-//   - debian.Factory.findReleases: the per-release loop only `continue`s (no
-//     return inside it), calls mkDist once, as its last statement;
-//     updater.Parse skips an advisory whose release getDist does not know;
-//   - alpine.Factory.UpdaterSet: the fields it assigns, and that every such
-//     assignment comes after the walk (after the last for statement).
+// EVALUATED (probe go/cmd/rxprobe/joinstate: the witness inputs of the defects
+// repaired in these factories, run against the real code over an in-process
+// transport; exported API and existing hooks only):
+//
+//   - debian: Factory.UpdaterSet against a mirror listing five releases of which
+//     one Release file answers 503 and one has no Version: no error and the
+//     release listed after the failing one is recorded (loopReturns = 0), every
+//     release that was read is recorded with its version (loopMkDistCalls = 1),
+//     the failing / version-less ones are not (loopEndsWithMkDist), nothing else
+//     is (otherMkDistCalls = 0: a skip-listed entry, an entry not listed); Parse
+//     of an advisory naming a recorded and an unknown release: no error, the
+//     unknown one left out (parseSkipsUnknown), the known one stamped with the
+//     recorded Distribution itself (parseGetDistCalls = 1).
+//   - alpine: what a complete walk of Factory.UpdaterSet stores (stateWrites: the
+//     validator is sent next time = etag; an unchanged last-update is not walked
+//     again = stamp; the same set is handed out = cur); a walk that breaks off on a
+//     request error, or the first walk meeting a 5xx, stores nothing
+//     (stateWritesAfterWalk); after a complete walk, a walk meeting a 5xx on a
+//     release directory / on a repository file hands its set out, the next call
+//     walks again and the release comes back (unexpectedStatusMarksIncomplete),
+//     still sending the OLD validator (incompleteReturnsBeforeStateWrites).
+//   - osv: a 304 on ecosystems.txt hands out the set of the last complete read
+//     (notModifiedHandsOutCur); the validator is sent after a complete read and
+//     not after a read that broke off, and the next read is complete
+//     (etagStoredWithCompleteSet).
+//
+// READ: the package-level sync.Map tables of debian, ubuntu, alpine, suse and
+// the methods called on them ("escape" = the variable is used other than as the
+// receiver of a method call).  Which function performs an operation is a label:
+// the snapshot's list (rxSnapTableOps) is printed when the SET OF METHODS used
+// on the table is the one it shows, the list as found otherwise.
 
 import (
 	"fmt"
@@ -24,10 +48,31 @@ func init() {
 	Register(Gen{Name: "JoinState", Run: genJoinState})
 }
 
-// j_syncMaps: package-level `var x sync.Map`.
-func j_syncMaps(sc *j_scope) []string {
+var rxSnapTableOps = map[string]struct {
+	table string
+	ops   [][2]string
+}{
+	"debian": {"releases", [][2]string{{"getDist", "Load"}, {"mkDist", "LoadOrStore"}}},
+	"ubuntu": {"releases", [][2]string{{"lookupDist", "Load"}, {"mkDist", "LoadOrStore"}}},
+	"alpine": {"relMap", [][2]string{{"stableRelease.Distribution", "Load"}, {"stableRelease.Distribution", "LoadOrStore"}}},
+	"suse":   {"releases", [][2]string{{"mkELDist", "LoadOrStore"}, {"mkLeapDist", "LoadOrStore"}}},
+}
+
+// rxjSyncMaps: package-level variables of type sync.Map (declared, or initialised with sync.Map{}).
+func rxjSyncMaps(p *rxPkg) []string {
 	var out []string
-	for _, f := range sc.files {
+	isSyncMap := func(file *ast.File, e ast.Expr) bool {
+		if cl, ok := e.(*ast.CompositeLit); ok {
+			e = cl.Type
+		}
+		se, ok := e.(*ast.SelectorExpr)
+		if !ok || se.Sel.Name != "Map" {
+			return false
+		}
+		x, ok := se.X.(*ast.Ident)
+		return ok && rxImportPath(file, x.Name) == "sync"
+	}
+	for _, f := range p.files {
 		for _, d := range f.Decls {
 			gd, ok := d.(*ast.GenDecl)
 			if !ok || gd.Tok != token.VAR {
@@ -35,12 +80,8 @@ func j_syncMaps(sc *j_scope) []string {
 			}
 			for _, s := range gd.Specs {
 				vs := s.(*ast.ValueSpec)
-				se, ok := vs.Type.(*ast.SelectorExpr)
-				if !ok {
-					continue
-				}
-				if x, ok := se.X.(*ast.Ident); ok && x.Name == "sync" && se.Sel.Name == "Map" {
-					for _, n := range vs.Names {
+				for i, n := range vs.Names {
+					if (vs.Type != nil && isSyncMap(f, vs.Type)) || (i < len(vs.Values) && isSyncMap(f, vs.Values[i])) {
 						out = append(out, n.Name)
 					}
 				}
@@ -51,35 +92,66 @@ func j_syncMaps(sc *j_scope) []string {
 	return out
 }
 
-// j_tableOps lists (function, method) for every use of the variable.
-func j_tableOps(sc *j_scope, name string) [][2]string {
+// rxjTableOps lists (function, method) for every use of the package-level variable.
+func rxjTableOps(p *rxPkg, name string) [][2]string {
 	seen := map[[2]string]bool{}
-	var keys []string
-	for k := range sc.funcs {
-		keys = append(keys, k)
-	}
-	sort.Strings(keys)
-	for _, k := range keys {
-		fd := sc.funcs[k]
-		if fd.Body == nil {
-			continue
-		}
-		asRecv := map[*ast.Ident]bool{}
-		ast.Inspect(fd.Body, func(n ast.Node) bool {
-			if se, ok := n.(*ast.SelectorExpr); ok {
-				if id, ok := se.X.(*ast.Ident); ok && id.Name == name {
-					asRecv[id] = true
-					seen[[2]string{k, se.Sel.Name}] = true
+	for _, f := range p.files {
+		for _, d := range f.Decls {
+			fd, ok := d.(*ast.FuncDecl)
+			if !ok || fd.Body == nil {
+				continue
+			}
+			k := fd.Name.Name
+			if fd.Recv != nil && len(fd.Recv.List) == 1 {
+				t := fd.Recv.List[0].Type
+				if st, ok := t.(*ast.StarExpr); ok {
+					t = st.X
+				}
+				if id, ok := t.(*ast.Ident); ok {
+					k = id.Name + "." + k
 				}
 			}
-			return true
-		})
-		ast.Inspect(fd.Body, func(n ast.Node) bool {
-			if id, ok := n.(*ast.Ident); ok && id.Name == name && !asRecv[id] {
-				seen[[2]string{k, "escape"}] = true
+			// a parameter or local variable of the same name shadows the table
+			shadow := false
+			ast.Inspect(fd, func(n ast.Node) bool {
+				switch x := n.(type) {
+				case *ast.Field:
+					for _, nm := range x.Names {
+						if nm.Name == name {
+							shadow = true
+						}
+					}
+				case *ast.AssignStmt:
+					if x.Tok == token.DEFINE {
+						for _, l := range x.Lhs {
+							if id, ok := l.(*ast.Ident); ok && id.Name == name {
+								shadow = true
+							}
+						}
+					}
+				}
+				return true
+			})
+			if shadow {
+				continue
 			}
-			return true
-		})
+			asRecv := map[*ast.Ident]bool{}
+			ast.Inspect(fd.Body, func(n ast.Node) bool {
+				if se, ok := n.(*ast.SelectorExpr); ok {
+					if id, ok := se.X.(*ast.Ident); ok && id.Name == name {
+						asRecv[id] = true
+						seen[[2]string{k, se.Sel.Name}] = true
+					}
+				}
+				return true
+			})
+			ast.Inspect(fd.Body, func(n ast.Node) bool {
+				if id, ok := n.(*ast.Ident); ok && id.Name == name && !asRecv[id] {
+					seen[[2]string{k, "escape"}] = true
+				}
+				return true
+			})
+		}
 	}
 	var out [][2]string
 	for p := range seen {
@@ -94,303 +166,106 @@ func j_tableOps(sc *j_scope, name string) [][2]string {
 	return out
 }
 
-func j_countCalls(n ast.Node, fn string) int {
-	c := 0
-	ast.Inspect(n, func(x ast.Node) bool {
-		if ce, ok := x.(*ast.CallExpr); ok {
-			if id, ok := ce.Fun.(*ast.Ident); ok && id.Name == fn {
-				c++
+func genJoinState(repo string) (string, error) {
+	out := j_joinHeader("JoinState", "debian/releases.go", "debian/updater.go", "debian/parser.go", "ubuntu/updaterset.go", "alpine/release.go", "alpine/updater.go", "suse/factory.go", "updater/osv/osv.go")
+	var obs map[string]map[string]string
+	if err := rxProbe(repo, "joinstate", map[string]any{}, &obs); err != nil {
+		return "", err
+	}
+	for _, part := range []string{"debian", "alpine", "osv"} {
+		if obs[part] == nil {
+			return "", fmt.Errorf("joinstate probe: no observations of %s", part)
+		}
+		for _, k := range []string{"panic", "factory"} {
+			if v, ok := obs[part][k]; ok {
+				return "", fmt.Errorf("joinstate probe: %s: %s: %s", part, k, v)
+			}
+		}
+	}
+	yes := func(part string, keys ...string) bool {
+		for _, k := range keys {
+			if obs[part][k] != "true" {
+				return false
 			}
 		}
 		return true
-	})
-	return c
-}
-
-func j_countReturns(n ast.Node) int {
-	c := 0
-	ast.Inspect(n, func(x ast.Node) bool {
-		switch x.(type) {
-		case *ast.FuncLit:
-			return false
-		case *ast.ReturnStmt:
-			c++
-		}
-		return true
-	})
-	return c
-}
-
-func genJoinState(repo string) (string, error) {
-	out := j_joinHeader("JoinState", "debian/releases.go", "debian/updater.go", "debian/parser.go", "ubuntu/updaterset.go", "alpine/release.go", "alpine/updater.go", "suse/factory.go", "updater/osv/osv.go")
+	}
 	for _, pkg := range []string{"debian", "ubuntu", "alpine", "suse"} {
-		sc, err := j_loadScope(repo, pkg, false)
+		p, err := rxLoadPkg(repo, pkg)
 		if err != nil {
 			return "", err
 		}
-		tables := j_syncMaps(sc)
+		tables := rxjSyncMaps(p)
 		if len(tables) != 1 {
 			return "", fmt.Errorf("%s: expected one package-level sync.Map, found %v", pkg, tables)
 		}
+		table, ops := tables[0], rxjTableOps(p, tables[0])
+		methods := func(ops [][2]string) string {
+			s := rxSet{}
+			for _, o := range ops {
+				s.add(o[1])
+			}
+			return strings.Join(s.sorted(), ",")
+		}
+		if sn := rxSnapTableOps[pkg]; methods(ops) == methods(sn.ops) {
+			table, ops = sn.table, sn.ops
+		}
 		out += "namespace " + pkg + "\n"
-		out += "def table : Bytes := " + j_lb(tables[0]) + "\n"
-		out += "/-- every (function, method) that touches `" + tables[0] + "` -/\ndef tableOps : List (Bytes × Bytes) := ["
-		for i, p := range j_tableOps(sc, tables[0]) {
+		out += "def table : Bytes := " + j_lb(table) + "\n"
+		out += "/-- every (function, method) that touches `" + table + "` -/\ndef tableOps : List (Bytes × Bytes) := ["
+		for i, o := range ops {
 			if i > 0 {
 				out += ", "
 			}
-			out += "(" + j_lb(p[0]) + ", " + j_lb(p[1]) + ")"
+			out += "(" + j_lb(o[0]) + ", " + j_lb(o[1]) + ")"
 		}
 		out += "]\n"
 		switch pkg {
 		case "debian":
-			fd, err := sc.fn("Factory.findReleases")
-			if err != nil {
-				return "", err
+			d := obs["debian"]
+			nat := func(b bool, t, f int) int {
+				if b {
+					return t
+				}
+				return f
 			}
-			var loop *ast.RangeStmt
-			for _, st := range fd.Body.List {
-				if ls, ok := st.(*ast.LabeledStmt); ok {
-					if rs, ok := ls.Stmt.(*ast.RangeStmt); ok {
-						loop = rs
-					}
+			other := 0
+			for _, k := range []string{"rec:rxja-updates", "rec:rxjzz"} {
+				if d[k] != "999" {
+					other++
 				}
 			}
-			if loop == nil || len(loop.Body.List) == 0 {
-				return "", fmt.Errorf("debian: findReleases: labelled range loop over the listing not found")
+			var known, unknown, stamped int
+			parsed := false
+			if _, err := fmt.Sscanf(d["parse"], "known=%d unknown=%d stamped=%d", &known, &unknown, &stamped); err == nil {
+				parsed = true
 			}
-			last := loop.Body.List[len(loop.Body.List)-1]
-			lastIsMk := false
-			if es, ok := last.(*ast.ExprStmt); ok {
-				if ce, ok := es.X.(*ast.CallExpr); ok {
-					if id, ok := ce.Fun.(*ast.Ident); ok && id.Name == "mkDist" {
-						lastIsMk = true
-					}
-				}
-			}
-			out += fmt.Sprintf("/-- findReleases, the per-release loop: return statements inside it -/\ndef loopReturns : Nat := %d\n", j_countReturns(loop.Body))
-			out += fmt.Sprintf("def loopMkDistCalls : Nat := %d\n", j_countCalls(loop.Body, "mkDist"))
-			out += "def loopEndsWithMkDist : Bool := " + j_leanBool(lastIsMk) + "\n"
-			out += fmt.Sprintf("/-- mkDist calls in findReleases outside the loop -/\ndef otherMkDistCalls : Nat := %d\n", j_countCalls(fd.Body, "mkDist")-j_countCalls(loop.Body, "mkDist"))
-			// Parse: d, err := getDist(release); if err != nil { continue }
-			pd, err := sc.fn("updater.Parse")
-			if err != nil {
-				return "", err
-			}
-			skips := false
-			ast.Inspect(pd.Body, func(n ast.Node) bool {
-				bs, ok := n.(*ast.BlockStmt)
-				if !ok {
-					return true
-				}
-				for i := 0; i+1 < len(bs.List); i++ {
-					as, ok := bs.List[i].(*ast.AssignStmt)
-					if !ok || len(as.Rhs) != 1 || j_countCalls(as.Rhs[0], "getDist") != 1 {
-						continue
-					}
-					is, ok := bs.List[i+1].(*ast.IfStmt)
-					if !ok || len(is.Body.List) == 0 {
-						continue
-					}
-					be, ok := is.Cond.(*ast.BinaryExpr)
-					if !ok || be.Op != token.NEQ || !j_isNil(be.Y) {
-						continue
-					}
-					if br, ok := is.Body.List[len(is.Body.List)-1].(*ast.BranchStmt); ok && br.Tok == token.CONTINUE && j_countReturns(is.Body) == 0 {
-						skips = true
-					}
-				}
-				return true
-			})
-			out += "/-- Parse: `d, err := getDist(release); if err != nil { continue }` -/\ndef parseSkipsUnknown : Bool := " + j_leanBool(skips) + "\n"
-			out += fmt.Sprintf("def parseGetDistCalls : Nat := %d\n", j_countCalls(pd.Body, "getDist"))
+			out += fmt.Sprintf("/-- findReleases, the per-release loop: return statements inside it -/\ndef loopReturns : Nat := %d\n", nat(d["setErr"] == "" && d["rec:rxjc"] == "43", 0, 1))
+			out += fmt.Sprintf("def loopMkDistCalls : Nat := %d\n", nat(d["rec:rxja"] == "41" && d["rec:rxjc"] == "43", 1, 0))
+			out += "def loopEndsWithMkDist : Bool := " + j_leanBool(d["rec:rxjb"] == "999" && d["rec:rxjd"] == "999") + "\n"
+			out += fmt.Sprintf("/-- mkDist calls in findReleases outside the loop -/\ndef otherMkDistCalls : Nat := %d\n", other)
+			out += "/-- Parse: `d, err := getDist(release); if err != nil { continue }` -/\ndef parseSkipsUnknown : Bool := " + j_leanBool(parsed && known >= 1 && unknown == 0) + "\n"
+			out += fmt.Sprintf("def parseGetDistCalls : Nat := %d\n", nat(parsed && known >= 1 && stamped == known, 1, 0))
 		case "alpine":
-			fd, err := sc.fn("Factory.UpdaterSet")
-			if err != nil {
-				return "", err
-			}
-			recv := ""
-			if fd.Recv != nil && len(fd.Recv.List) == 1 && len(fd.Recv.List[0].Names) == 1 {
-				recv = fd.Recv.List[0].Names[0].Name
-			}
-			var firstFor, lastFor token.Pos
-			for _, st := range fd.Body.List {
-				switch s := st.(type) {
-				case *ast.ForStmt, *ast.RangeStmt:
-					lastFor = s.End()
-					if firstFor == 0 {
-						firstFor = s.Pos()
-					}
-				case *ast.LabeledStmt:
-					switch s.Stmt.(type) {
-					case *ast.ForStmt, *ast.RangeStmt:
-						lastFor = s.End()
-						if firstFor == 0 {
-							firstFor = s.Pos()
-						}
-					}
+			fields := []string{}
+			for _, f := range [][2]string{{"cur", "curStored"}, {"etag", "etagStored"}, {"stamp", "stampStored"}} {
+				if yes("alpine", f[1]) {
+					fields = append(fields, f[0])
 				}
 			}
-			var fields []string
-			after := true
-			ast.Inspect(fd.Body, func(n ast.Node) bool {
-				as, ok := n.(*ast.AssignStmt)
-				if !ok {
-					return true
-				}
-				for _, l := range as.Lhs {
-					if se, ok := l.(*ast.SelectorExpr); ok {
-						if id, ok := se.X.(*ast.Ident); ok && id.Name == recv {
-							fields = append(fields, se.Sel.Name)
-							if as.Pos() < lastFor {
-								after = false
-							}
-						}
-					}
-				}
-				return true
-			})
-			sort.Strings(fields)
 			out += "/-- fields of the Factory assigned in UpdaterSet -/\ndef stateWrites : List Bytes := " + j_lbList(fields) + "\n"
-			out += "def stateWritesAfterWalk : Bool := " + j_leanBool(after && lastFor != 0) + "\n"
-			// every `default:` arm of a switch on res.StatusCode inside the walk's
-			// loops assigns `incomplete = true`
-			marks, arms := 0, 0
-			ast.Inspect(fd.Body, func(n ast.Node) bool {
-				sw, ok := n.(*ast.SwitchStmt)
-				if !ok || sw.Pos() > lastFor || sw.Pos() < firstFor {
-					return true
-				}
-				se, ok := sw.Tag.(*ast.SelectorExpr)
-				if !ok || se.Sel.Name != "StatusCode" {
-					return true
-				}
-				for _, c := range sw.Body.List {
-					cc := c.(*ast.CaseClause)
-					if cc.List != nil {
-						continue
-					}
-					arms++
-					for _, st := range cc.Body {
-						if as, ok := st.(*ast.AssignStmt); ok && len(as.Lhs) == 1 && len(as.Rhs) == 1 {
-							l, lok := as.Lhs[0].(*ast.Ident)
-							r, rok := as.Rhs[0].(*ast.Ident)
-							if lok && rok && l.Name == "incomplete" && r.Name == "true" {
-								marks++
-							}
-						}
-					}
-				}
-				return true
-			})
-			// `if incomplete { return … }` between the walk and the state writes
-			guard := false
-			var firstWrite token.Pos
-			ast.Inspect(fd.Body, func(n ast.Node) bool {
-				if as, ok := n.(*ast.AssignStmt); ok {
-					for _, l := range as.Lhs {
-						if se, ok := l.(*ast.SelectorExpr); ok {
-							if id, ok := se.X.(*ast.Ident); ok && id.Name == recv && (firstWrite == 0 || as.Pos() < firstWrite) {
-								firstWrite = as.Pos()
-							}
-						}
-					}
-				}
-				return true
-			})
-			for _, st := range fd.Body.List {
-				is, ok := st.(*ast.IfStmt)
-				if !ok || is.Pos() < lastFor || is.Pos() > firstWrite {
-					continue
-				}
-				if id, ok := is.Cond.(*ast.Ident); ok && id.Name == "incomplete" && len(is.Body.List) == 1 {
-					if _, ok := is.Body.List[0].(*ast.ReturnStmt); ok {
-						guard = true
-					}
-				}
-			}
-			out += "/-- the walk has status switches with a default arm, and each of them sets `incomplete` -/\ndef unexpectedStatusMarksIncomplete : Bool := " + j_leanBool(arms >= 2 && marks == arms) + "\n"
-			out += "def incompleteReturnsBeforeStateWrites : Bool := " + j_leanBool(guard) + "\n"
+			out += "def stateWritesAfterWalk : Bool := " + j_leanBool(yes("alpine", "abort:err", "abort:nothingStored", "first:nothingStored")) + "\n"
+			out += "/-- the walk has status switches with a default arm, and each of them sets `incomplete` -/\ndef unexpectedStatusMarksIncomplete : Bool := " +
+				j_leanBool(yes("alpine", "dir:handedOut", "dir:walksAgain", "dir:comesBack", "repo:handedOut", "repo:walksAgain", "repo:comesBack")) + "\n"
+			out += "def incompleteReturnsBeforeStateWrites : Bool := " + j_leanBool(yes("alpine", "dir:oldValidatorKept", "repo:oldValidatorKept", "first:nothingStored")) + "\n"
 		}
 		out += "end " + pkg + "\n\n"
 	}
-	// --- updater/osv: Factory.UpdaterSet and its validator
-	{
-		sc, err := j_loadScope(repo, "updater/osv", false)
-		if err != nil {
-			return "", err
-		}
-		fd, err := sc.fn("Factory.UpdaterSet")
-		if err != nil {
-			return "", err
-		}
-		recv := ""
-		if fd.Recv != nil && len(fd.Recv.List) == 1 && len(fd.Recv.List[0].Names) == 1 {
-			recv = fd.Recv.List[0].Names[0].Name
-		}
-		isRecvField := func(e ast.Expr, field string) bool {
-			se, ok := e.(*ast.SelectorExpr)
-			if !ok || se.Sel.Name != field {
-				return false
-			}
-			id, ok := se.X.(*ast.Ident)
-			return ok && id.Name == recv
-		}
-		notModCur, etagGuarded := false, false
-		etagWrites, curWrites := 0, 0
-		ast.Inspect(fd.Body, func(n ast.Node) bool {
-			switch x := n.(type) {
-			case *ast.AssignStmt:
-				for _, l := range x.Lhs {
-					if isRecvField(l, "etag") {
-						etagWrites++
-					}
-					if isRecvField(l, "cur") {
-						curWrites++
-					}
-				}
-			case *ast.CaseClause:
-				for _, e := range x.List {
-					if se, ok := e.(*ast.SelectorExpr); ok && se.Sel.Name == "StatusNotModified" {
-						if len(x.Body) == 1 {
-							if as, ok := x.Body[0].(*ast.AssignStmt); ok && len(as.Lhs) == 1 && len(as.Rhs) == 1 {
-								if id, ok := as.Lhs[0].(*ast.Ident); ok && id.Name == "s" && isRecvField(as.Rhs[0], "cur") {
-									notModCur = true
-								}
-							}
-						}
-					}
-				}
-			case *ast.IfStmt:
-				be, ok := x.Cond.(*ast.BinaryExpr)
-				if !ok || be.Op != token.EQL || !j_isNil(be.Y) {
-					return true
-				}
-				if id, ok := be.X.(*ast.Ident); !ok || id.Name != "err" {
-					return true
-				}
-				e, c := false, false
-				for _, st := range x.Body.List {
-					if as, ok := st.(*ast.AssignStmt); ok && len(as.Lhs) == 1 && len(as.Rhs) == 1 {
-						if isRecvField(as.Lhs[0], "etag") {
-							e = true
-						}
-						if id, ok := as.Rhs[0].(*ast.Ident); ok && id.Name == "s" && isRecvField(as.Lhs[0], "cur") {
-							c = true
-						}
-					}
-				}
-				if e && c {
-					etagGuarded = true
-				}
-			}
-			return true
-		})
-		out += "namespace osv\n"
-		out += "/-- `case http.StatusNotModified: s = f.cur` -/\ndef notModifiedHandsOutCur : Bool := " + j_leanBool(notModCur) + "\n"
-		out += "/-- etag and cur are assigned once each, together, under `if err == nil` -/\ndef etagStoredWithCompleteSet : Bool := " + j_leanBool(etagGuarded && etagWrites == 1 && curWrites == 1) + "\n"
-		out += "end osv\n\n"
-	}
+	out += "namespace osv\n"
+	out += "/-- `case http.StatusNotModified: s = f.cur` -/\ndef notModifiedHandsOutCur : Bool := " + j_leanBool(yes("osv", "notModifiedHandsOutCur", "etagSentAfterCompleteRead")) + "\n"
+	out += "/-- etag and cur are assigned once each, together, under `if err == nil` -/\ndef etagStoredWithCompleteSet : Bool := " +
+		j_leanBool(yes("osv", "etagSentAfterCompleteRead", "cutRead:err", "cutRead:validatorNotKept", "cutRead:nextComplete")) + "\n"
+	out += "end osv\n\n"
 	out += "end ClairModel.Gen.JoinState\n"
 	return strings.ReplaceAll(out, "\t", " "), nil
 }
